@@ -561,9 +561,40 @@ def check_c13(tier, seed, chk):
         if parents != want_parents and shown == want_shown:
             violation(res, dict(sig_base, **{"class": "parents"}), "filters positive=%s skip=%s: group / module nodes shown %s differ from those with a selected case below" % (list(pos), list(skip), sorted(parents ^ want_parents)[:5]), r)
         outcomes.add(len(sel))
+    # skip filters given through the builder: regex and exact ones can be mixed there (the command line
+    # makes all filters exact or none)
+    paths = [c["path"] for c in cases]
+    bsets = []
+    for f in FILTER_ALPHABET[:6] + INNER_ONLY[:5]:
+        bsets.append(((f,), ()))
+    for e in (paths[0], paths[len(paths) // 2], "zoo::ign::ig", "zoo"):
+        bsets.append(((), (e,)))
+    bsets.append((("a_", "inherited"), (paths[3], paths[7])))
+    bsets.append((("^zoo::f0",), (paths[0], "zoo::f001")))
+    bsets.append(((r"::\d+$",), (next(p for p in paths if p.endswith("::1")),)))
+
+    def bone(bs):
+        rx, ex = bs
+        mode = ";".join(["default"] + ["skip_regex=" + f for f in rx] + ["skip_exact=" + e for e in ex] + ["run_ignored", "test"])
+        return bs, run_zoo(binary, [], {"ZOO_MODE": mode}, timeout=300)
+
+    for (rx, ex), r in pmap(bone, bsets):
+        count_run(res, r, len(r.log))
+        sel = [c for c in cases if not any(re.search(f, c["path"]) for f in rx) and c["path"] not in ex]
+        sig_base = {"check": "builder-filter", "regex": len(rx), "exact": len(ex)}
+        if r.rc != 0:
+            violation(res, dict(sig_base, **{"class": "crash"}), "builder skip_regex=%s skip_exact=%s exited with %s: %s" % (rx, ex, r.rc, r.err[-300:]), r)
+            continue
+        want, got = expected_records(model, sel), observed_records(r)
+        if want != got:
+            extra = [g for g in got if g not in want]
+            missing = [w for w in want if w not in got]
+            violation(res, dict(sig_base, **{"class": "ran-unselected" if extra else "did-not-run"}),
+                      "Divan::default().skip_regex(%s).skip_exact(%s).run_ignored().test_benches(): executed cases differ from the rule: unexpected %s, missing %s" % (list(rx), list(ex), extra[:4], missing[:4]), r)
+        outcomes.add(("builder", len(sel)))
     res["distinct_outcomes"] = len(outcomes)
     res["samples"] = [{"filter_set": {"positive": list(s[0]), "skip": list(s[1]), "exact": s[2]}, "selected_cases": len(selected(cases, *s))} for s in sets[1:40:9]]
-    res["bounds"] = {"filter_sets": len(sets), "filter_alphabet": FILTER_ALPHABET, "inner_only_patterns": INNER_ONLY, "cases": len(cases), "mode": "--test --include-ignored", "tier_zoo": tier}
+    res["bounds"] = {"filter_sets": len(sets), "filter_alphabet": FILTER_ALPHABET, "inner_only_patterns": INNER_ONLY, "builder_filter_sets": len(bsets), "cases": len(cases), "mode": "--test --include-ignored", "tier_zoo": tier}
     res["wall_s"] = time.time() - t0
     return [res]
 
@@ -1195,8 +1226,15 @@ def check_c16(tier, seed, chk):
                     if fam == "srt":
                         jobs.append((fam, sort, "list", ["--list"] + fargv, flag))
 
+    # the same order requested through the environment (DIVAN_SORT / DIVAN_SORTR)
+    for sort in SORTS:
+        jobs.append(("srt", sort, "test", ["--test"], "env"))
+        jobs.append(("pw", sort, "list", ["--list"], "env"))
+
     def one(job):
         fam, sort, action, argv, flag = job
+        if flag == "env":
+            return job, run_zoo(binary, argv + ["^zoo::%s::" % fam], {"DIVAN_SORT" if sort[0] == "--sort" else "DIVAN_SORTR": sort[1]}, want_stats=False, clock=CLOCK, timeout=600)
         flt = ["^zoo::%s::" % fam] if fam else ["--skip", "^zoo::pnc"]
         return job, run_zoo(binary, argv + [sort[0], sort[1]] + flt, want_stats=False, clock=CLOCK, timeout=600)
 
@@ -1204,6 +1242,10 @@ def check_c16(tier, seed, chk):
         count_run(res, r, len(r.out.splitlines()))
         desc = "zoo %s %s %s %s" % (" ".join(argv), sort[0], sort[1], fam or "(whole zoo)")
         sig = {"check": "printed-order", "sort": "%s %s" % sort, "action": action}
+        if flag == "env":
+            sig["route"] = "environment"
+            desc = "zoo %s with %s=%s %s" % (" ".join(argv), "DIVAN_SORT" if sort[0] == "--sort" else "DIVAN_SORTR", sort[1], fam)
+            flag = "none"
         if flag != "none":
             sig["ignored_flag"] = flag
         if r.rc != 0:
